@@ -100,6 +100,9 @@ def gen_tas(rng, tier, flavour):
         if flavour == "wellformed":
             hi = lo + rng.randint(1, 64 * 40) / 64.0
             t = lo + rng.randint(0, int(round((hi - lo) * 64))) / 64.0
+            if rng.random() < 0.3:  # skew at the extremes: 2^-k and 1 - 2^-k down to ~1e-9 (exact in binary), and exactly 0 / 1
+                e = (hi - lo) * 2.0 ** -rng.randint(10, 30)
+                t = rng.choice([lo + e, hi - e, lo, hi])
         elif flavour == "degenerate":
             hi = lo if rng.random() < 0.4 else lo + rng.randint(1, 640) / 64.0
             t = rng.choice([lo, hi, lo + rng.randint(0, 640) / 64.0])
@@ -123,7 +126,8 @@ def gen_inverse(rng, tier, flavour):
     tas = fill(shape, lambda: dy(rng, -scale, scale))
     if flavour == "wellformed":
         r = fill(shape, lambda: rng.randint(0, 64 * 40) / 64.0)
-        s = fill(shape, lambda: rng.randint(0, 64) / 64.0)
+        s = fill(shape, lambda: rng.choice([rng.randint(0, 64) / 64.0, rng.randint(0, 64) / 64.0, 2.0 ** -rng.randint(10, 40),
+                                            1 - 2.0 ** -rng.randint(10, 40), 0.0, 1.0]))
     else:
         r = fill(shape, lambda: dy(rng, -40, 40))
         s = fill(shape, lambda: dy(rng, -2, 3))
@@ -141,6 +145,9 @@ def gen_pr(rng, tier, flavour):
         if flavour == "wellformed":
             p = rng.randint(1, 64 * 50) / 64.0
             s = rng.choice([0.0, p, rng.randint(0, int(p * 64)) / 64.0])
+            if rng.random() < 0.3:  # trace snow / trace rain: prsn/pr = 2^-k or 1 - 2^-k, 1e-4 down to ~1e-12 (exact in binary)
+                f = 2.0 ** -rng.randint(12, 38)
+                s = rng.choice([p * f, p - p * f])
         elif flavour == "degenerate":
             p = rng.choice([0.0, 0.0, rng.randint(1, 640) / 64.0])
             s = rng.choice([0.0, p, rng.randint(0, 640) / 64.0])
@@ -238,20 +245,53 @@ def oracle_pr(pr, prsn):
         q = u.get_prsnratio(pr, prsn)
         s2 = u.get_prsn(pr, q)
         p2 = u.get_pr(prsn, q)
-    tol = REL * np.abs(np.asarray(pr, dtype=float))  # element-wise relative: the fluxes can be tiny (kg m-2 s-1)
+    # element-wise and relative to the value that must come back: the fluxes can be tiny (kg m-2 s-1) and the snow
+    # fraction can be a trace (prsn = 1e-12 pr); float rounding of q = prsn/pr, q*pr, prsn/q is a few ulp of the result
+    tol = 1e-13 * np.abs(np.asarray(pr, dtype=float))
+    tol_s = 1e-13 * np.abs(np.asarray(prsn, dtype=float))
     problems = []
     if np.shape(q) != np.shape(pr) or np.shape(s2) != np.shape(pr) or np.shape(p2) != np.shape(pr):
         return [(f"pr conversions change the shape: inputs {np.shape(pr)}, get_prsnratio {np.shape(q)}, get_prsn {np.shape(s2)}, get_pr {np.shape(p2)}", {})]
     bad = ~((np.asarray(q) >= 0) & (np.asarray(q) <= 1))
     if np.any(bad):
         problems.append(("prsnratio outside [0,1] for 0 <= prsn <= pr, pr > 0", first_bad(bad, pr, prsn, q)))
-    bad = ~(np.abs(np.asarray(s2) - prsn) <= tol)
+    bad = ~(np.abs(np.asarray(s2) - prsn) <= tol_s)
     if np.any(bad):
         problems.append(("get_prsn(pr, get_prsnratio(pr, prsn)) differs from prsn", first_bad(bad, pr, prsn, q, s2)))
     snow = np.asarray(prsn) != 0
     bad = snow & ~(np.abs(np.asarray(p2) - pr) <= tol)
     if np.any(bad):
         problems.append(("get_pr(prsn, get_prsnratio(pr, prsn)) differs from pr where prsn > 0", first_bad(bad, pr, prsn, q, p2)))
+    return problems
+
+
+@no_raise
+def oracle_formulas(v, names):
+    """each named function on the arrays of `v` (keys as in FUNC_ARGS) equals the documented formula of the values, to a
+    few ulp of the operands — whatever the magnitude of a ratio / skew (trace fractions 1e-12, 1 - 1e-12, exact 0 and 1)"""
+    u = U()
+    problems = []
+    for f in names:
+        args = [v[a] for a in FUNC_ARGS[f]]
+        with warnings.catch_warnings(), np.errstate(all="ignore"):
+            warnings.simplefilter("ignore")
+            want = seq_reference(f, {**{k: np.zeros(1) for k in ("tas", "tasmin", "tasmax", "r", "s", "pr", "prsn", "q")}, **v})
+            out = getattr(u, f)(*args)
+        got = out if isinstance(out, tuple) else (out,)
+        for pos, (g, w) in enumerate(zip(got, want)):
+            g = np.asarray(g, dtype=float)
+            if g.shape != w.shape:
+                problems.append((f"{f} output {pos} has shape {g.shape}, inputs {w.shape}", {"function": f}))
+                continue
+            fin = np.isfinite(w)
+            wz = np.where(fin, w, 0.0)
+            # a product / quotient is exact to an ulp of itself; a sum / difference to an ulp of its operands
+            ulp = 1e-13 * (np.abs(wz) if f in ("get_prsn", "get_pr", "get_prsnratio") else np.maximum.reduce([np.abs(np.asarray(a, dtype=float)) for a in args] + [np.abs(wz)]))
+            if f == "get_tasskew" or (f == "get_tasrange_tasskew" and pos == 1):
+                ulp = 1e-13 * (np.abs(wz) + mag(*args) / np.maximum(np.abs(np.asarray(v["tasmax"]) - np.asarray(v["tasmin"])), 1e-300))
+            bad = (np.isfinite(g) != fin) | (fin & ~(np.abs(np.where(fin, g, 0.0) - wz) <= ulp))
+            if np.any(bad):
+                problems.append((f"{f} output {pos} differs from the documented formula of its arguments", {"function": f, **first_bad(bad, *args, g, w)}))
     return problems
 
 
@@ -702,6 +742,12 @@ def run(tier, res, force_search=False):
             add("helper", [r2, tas2], hp, case2, sc2)
             lines.append("tasminmax " + " ".join(rl(a) for a in (tas2, r2, s2)))
             expect.append(("tasminmax", case2, mm, sc2))
+            for p, d in oracle_formulas({"tas": tas2, "r": r2, "s": s2}, ["get_tasmin", "get_tasmax", "get_tasmin_tasmax"]):
+                problems_all.append((p, {"oracle": "formulas", "names": ["get_tasmin", "get_tasmax", "get_tasmin_tasmax"],
+                                         "v": {"tas": tas2.tolist(), "r": r2.tolist(), "s": s2.tolist()}, **case2, "detail": d}))
+            for p, d in oracle_formulas({"tas": tas, "tasmin": tasmin, "tasmax": tasmax}, ["get_tasrange", "get_tasskew", "get_tasrange_tasskew"]):
+                problems_all.append((p, {"oracle": "formulas", "names": ["get_tasrange", "get_tasskew", "get_tasrange_tasskew"],
+                                         "v": {"tas": tas.tolist(), "tasmin": tasmin.tolist(), "tasmax": tasmax.tolist()}, **case, "detail": d}))
             if fl2 == "wellformed":
                 for p, d in oracle_order(tas2, r2, s2):
                     problems_all.append((p, {"oracle": "order", "tas": tas2.tolist(), "tasrange": r2.tolist(), "tasskew": s2.tolist(), **case2, "detail": d}))
@@ -716,7 +762,11 @@ def run(tier, res, force_search=False):
                 warnings.simplefilter("ignore")
                 q = u.get_prsnratio(pr, prsn)
             add("prsnratio", [pr, prsn], q, case3, sc3)
-            qd = fill(pr.shape, lambda: rng.choice([0.0, 1.0, rng.randint(0, 64) / 64.0, rng.randint(-128, 128) / 64.0]))
+            qd = fill(pr.shape, lambda: rng.choice([0.0, 1.0, rng.randint(0, 64) / 64.0, rng.randint(-128, 128) / 64.0,
+                                                    2.0 ** -rng.randint(10, 40), 1 - 2.0 ** -rng.randint(10, 40)]))
+            for p, d in oracle_formulas({"pr": pr, "prsn": prsn, "q": qd}, ["get_prsnratio", "get_prsn", "get_pr"]):
+                problems_all.append((p, {"oracle": "formulas", "names": ["get_prsnratio", "get_prsn", "get_pr"],
+                                         "v": {"pr": pr.tolist(), "prsn": prsn.tolist(), "q": qd.tolist()}, **case3, "detail": d}))
             with warnings.catch_warnings(), np.errstate(all="ignore"):
                 warnings.simplefilter("ignore")
                 add("pr", [prsn, qd], u.get_pr(prsn, qd), case3, sc3 * 64)
@@ -844,7 +894,7 @@ def run(tier, res, force_search=False):
 
     seen = set()
     for p, case in problems_all:
-        key = ((case.get("setting"), p.split(":")[1][:30]) if case.get("oracle") == "ambient" else p if case.get("oracle") not in ("sequence", "layout", "raise") else
+        key = (" ".join(p.split(" ")[:2]) if case.get("oracle") == "formulas" else (case.get("setting"), p.split(":")[1][:30]) if case.get("oracle") == "ambient" else p if case.get("oracle") not in ("sequence", "layout", "raise") else
                (" ".join(p.split(" ")[2:4]) if case.get("oracle") == "sequence" else (case.get("function"), p.split(":")[-1][:12])), case.get("oracle"))
         if len(res.violations) >= 6:
             break
@@ -866,7 +916,9 @@ def replay(data):
         print("replay without failing input: run ./check C18 --tier quick")
         return 2
     A = lambda k: np.asarray(fi[k], dtype=float)  # noqa: E731
-    if fi["oracle"] == "ambient":
+    if fi["oracle"] == "formulas":
+        probs = oracle_formulas({k: np.asarray(a, dtype=float) for k, a in fi["v"].items()}, fi["names"])
+    elif fi["oracle"] == "ambient":
         probs = oracle_ambient(fi["setting"], A("tas"), A("tasmin"), A("tasmax"), A("pr"), A("prsn"))
     elif fi["oracle"] == "raise":
         try:
